@@ -112,7 +112,43 @@ func c14Domains(e *domEnv) []*msgDom {
 		case *didtypes.MsgUpdateDIDRequest:
 			x.Document.Controller = &didtypes.JSONStringOrStrings{x.Did}
 		}
-	}}, fclass{Label: "D1-no-context", Odd: true, Set: func(m sdk.Msg) {
+	}})
+	// list-valued document fields: repeated and re-ordered entries are different messages (they differ on the wire and in
+	// what is stored) and must differ in every sign mode. (nil vs explicitly empty list is left out: the same value.)
+	other := k.DIDs[1]
+	for _, lc := range []struct {
+		label string
+		ctl   func(did string) []string
+		ctx   []string
+	}{
+		{"D1+controller-twice", func(did string) []string { return []string{did, did} }, nil},
+		{"D1+controller-two", func(did string) []string { return []string{did, other} }, nil},
+		{"D1+controller-two-reversed", func(did string) []string { return []string{other, did} }, nil},
+		{"D1+contexts-three", nil, []string{didtypes.ContextDIDV1, "https://a.example/v1", "https://b.example/v1"}},
+		{"D1+contexts-three-reordered", nil, []string{didtypes.ContextDIDV1, "https://b.example/v1", "https://a.example/v1"}},
+	} {
+		lc := lc
+		docField.Classes = append(docField.Classes, fclass{Label: lc.label, Odd: true, Set: func(m sdk.Msg) {
+			setDocShape(m, "D1")
+			var d *didtypes.DIDDocument
+			var did string
+			switch x := m.(type) {
+			case *didtypes.MsgCreateDIDRequest:
+				d, did = x.Document, x.Did
+			case *didtypes.MsgUpdateDIDRequest:
+				d, did = x.Document, x.Did
+			}
+			if lc.ctl != nil {
+				c := didtypes.JSONStringOrStrings(lc.ctl(did))
+				d.Controller = &c
+			}
+			if lc.ctx != nil {
+				c := didtypes.JSONStringOrStrings(lc.ctx)
+				d.Contexts = &c
+			}
+		}})
+	}
+	docField.Classes = append(docField.Classes, fclass{Label: "D1-no-context", Odd: true, Set: func(m sdk.Msg) {
 		setDocShape(m, "D1")
 		switch x := m.(type) {
 		case *didtypes.MsgCreateDIDRequest:
